@@ -69,6 +69,7 @@ type fnInfo struct {
 	params []hs.Type
 	ret    hs.Type
 	single bool // takes a singleton parameter
+	rec    bool // recursive: the first parameter is the recursion depth, callers pass a small literal
 }
 
 type G struct {
@@ -546,6 +547,22 @@ func (g *G) floatExpr(d int) hs.Expr {
 		if g.c.Wild {
 			ops = append(ops, "**", "/")
 		}
+		if !g.c.Wild && !g.c.SmallNums && !g.c.off("float-pow") && g.chance("floatPow", 10) {
+			// operands for which the power is exact (or a correctly rounded reciprocal / square root)
+			bases := []float64{0.5, 2, 4, 1.5, 9, 0.25, 10, 3}
+			exps := []float64{0, 1, 2, 3, -1, 0.5}
+			var l hs.Expr = hs.FloatLit{V: bases[g.pick("powBase", len(bases))]}
+			ev := exps[g.pick("powExp", len(exps))]
+			if ev != 0.5 && g.chance("powNegBase", 25) {
+				l = hs.Paren{X: hs.Prefix{Op: "-", X: l, T: hs.TFloat}}
+			}
+			var r hs.Expr = hs.FloatLit{V: ev}
+			if ev < 0 {
+				r = hs.Paren{X: hs.Prefix{Op: "-", X: hs.FloatLit{V: -ev}, T: hs.TFloat}}
+			}
+			g.feat("float-pow")
+			return hs.Infix{Op: "**", L: l, R: r, T: hs.TFloat}
+		}
 		op := ops[g.pick("floatOp", len(ops))]
 		l := g.expr(hs.TFloat, d-1)
 		var r hs.Expr
@@ -780,10 +797,23 @@ func (g *G) callExpr(t hs.Type, d int) (hs.Expr, bool) {
 	}
 	f := cands[g.pick("callee", len(cands))]
 	c := hs.Call{Fn: hs.Ident{Name: f.name, T: hs.TFn(f.ret, f.params...)}, T: t}
-	for _, p := range f.params {
+	for i, p := range f.params {
+		if i == 0 && f.rec {
+			c.Args = append(c.Args, g.smallInt(0, 4))
+			g.feat("call-recursive-fn")
+			continue
+		}
 		c.Args = append(c.Args, g.expr(p, d-1))
 	}
 	g.feat("call")
+	if !g.c.Pure && !f.single && !g.c.off("fn-value") && g.chance("fnValue", 20) {
+		// the function travels as a value: ({ let h = f; h(args) })
+		h := g.fresh("h")
+		ft := hs.TFn(f.ret, f.params...)
+		c.Fn = hs.Ident{Name: h, T: ft}
+		g.feat("fn-value-call")
+		return &hs.Block{T: t, Stmts: []hs.Stmt{hs.Let{Name: h, X: hs.Ident{Name: f.name, T: ft}}}, Tail: c}, true
+	}
 	return c, true
 }
 
